@@ -8,7 +8,7 @@ export GOFLAGS=-mod=mod GOPROXY=off GOSUMDB=off GOTOOLCHAIN=local
 id="$1"; shift
 lc=$(echo "$id" | tr 'A-Z' 'a-z')
 mkdir -p bin evidence replays
-if ! go build -o "bin/$lc" "./checks/$lc" 2>bin/$lc.buildlog; then
+if ! ./build.sh "$lc" 2>bin/$lc.buildlog; then
   cat bin/$lc.buildlog >&2
   echo "BUILD-FAILED property=$id (the tree or the harness does not compile; no verdict)"
   exit 2
